@@ -2,6 +2,7 @@ package main
 
 import (
 	"fmt"
+	"math"
 	"go/token"
 	"go/types"
 	"sort"
@@ -939,6 +940,7 @@ func isLenOfInput(v ssa.Value, fa *ssa.FieldAddr) bool {
 // lenLowerBound: the largest L such that a guard holding at `in` proves len(input) >= L (0 when none);
 // related: some guard compares the length with the given non-constant value.
 func lenFacts(in ssa.Instruction, fa *ssa.FieldAddr, related ssa.Value) (int64, bool, []*ssa.BasicBlock) {
+	_, strictIndex := in.(*ssa.IndexAddr) // a single element read needs len > index
 	var lb int64
 	rel := false
 	var at []*ssa.BasicBlock
@@ -1018,9 +1020,22 @@ func lenFacts(in ssa.Instruction, fa *ssa.FieldAddr, related ssa.Value) (int64, 
 					}
 					continue
 				}
-				if related != nil && (op == token.GEQ || op == token.GTR) && (mentions(other, related, 0) || !isIndexLike(related)) {
-					rel = true
-					at = append(at, s)
+				if related != nil && (op == token.GEQ || op == token.GTR) {
+					switch {
+					case !isIndexLike(related):
+						rel = true // a computed byte count under `len(input) >= computed`
+					case op == token.GTR && sameQuantity(other, related):
+						rel = true // len(input) > i
+					case op == token.GEQ && isValuePlusPositive(other, related):
+						rel = true // len(input) >= i + k, k >= 1
+					case strictIndex:
+						// len(input) >= i only: input[i] is one past the end
+					case mentions(other, related, 0):
+						rel = true
+					}
+					if rel {
+						at = append(at, s)
+					}
 				}
 			}
 		}
@@ -2781,4 +2796,896 @@ func paramOf(f *ssa.Function, v ssa.Value) int {
 		}
 	}
 	return -1
+}
+
+// exploration helper: loops in bool functions with in-body returns of both constants
+func dumpBoolLoops(c *Ctx) {
+	for _, f := range c.P.Funcs {
+		if !c.P.InRepo(f) || len(f.Blocks) == 0 {
+			continue
+		}
+		res := f.Signature.Results()
+		if res.Len() != 1 {
+			continue
+		}
+		if bt, ok := res.At(0).Type().Underlying().(*types.Basic); !ok || bt.Kind() != types.Bool {
+			continue
+		}
+		for _, h := range f.Blocks {
+			loop := naturalLoop(h)
+			if loop == nil {
+				continue
+			}
+			var after *ssa.Return
+			for _, s := range h.Succs {
+				if !loop[s] {
+					after = returnAfter(s)
+				}
+			}
+			d := "?"
+			if after != nil {
+				if b, ok := constBool(after.Results[0]); ok {
+					d = fmt.Sprint(b)
+				}
+			}
+			nt, nf, nb := 0, 0, 0
+			for _, e := range bodyExits(h, loop) {
+				r := returnAfter(e.to)
+				if r == nil {
+					if !inEnclosingLoop(f, h, e.to) && !endsInPanic(e.to) {
+						nb++
+					}
+					continue
+				}
+				if b, ok := constBool(r.Results[0]); ok {
+					if b {
+						nt++
+					} else {
+						nf++
+					}
+				}
+			}
+			fmt.Printf("%s loop#%d default=%s in-body: true=%d false=%d break=%d @%s\n", FuncName(f), loopOrdinal(f, h), d, nt, nf, nb, c.P.Pos(firstPos(h)))
+		}
+	}
+}
+
+// ---------------------------------------------------------------------------
+// quantifier loops in the Boolean predicates (generalisation of C09.exists)
+// ---------------------------------------------------------------------------
+
+// checkQuantifierLoops: for every loop of f whose fall-through answer is the constant D and in
+// whose body the opposite answer (a witness / a counter-example) can be returned, D is not returned
+// from inside the loop and the loop is not left by a break that reaches `return D`.
+func checkQuantifierLoops(c *Ctx, f *ssa.Function, reviewed map[string]string) int {
+	res := f.Signature.Results()
+	if res.Len() != 1 || len(f.Blocks) == 0 {
+		return 0
+	}
+	if bt, ok := res.At(0).Type().Underlying().(*types.Basic); !ok || bt.Kind() != types.Bool {
+		return 0
+	}
+	fn := FuncName(f)
+	n := 0
+	for _, h := range f.Blocks {
+		loop := naturalLoop(h)
+		if loop == nil {
+			continue
+		}
+		var after *ssa.Return
+		for _, s := range h.Succs {
+			if !loop[s] {
+				after = returnAfter(s)
+			}
+		}
+		if after == nil {
+			continue
+		}
+		dflt, ok := constBool(after.Results[0])
+		if !ok {
+			continue
+		}
+		exits := bodyExits(h, loop)
+		witness := false
+		for _, e := range exits {
+			if r := returnAfter(e.to); r != nil {
+				if b, ok := constBool(r.Results[0]); ok && b != dflt {
+					witness = true
+				}
+			}
+		}
+		if !witness {
+			continue
+		}
+		n++
+		kind := map[bool]string{false: "exists", true: "for-all"}[dflt]
+		construct := fmt.Sprintf("%s loop #%d", kind, loopOrdinal(f, h))
+		if why, ok := reviewed[fn]; ok {
+			c.Except(firstPos(h), fn, construct, why)
+			continue
+		}
+		bad := ""
+		for _, e := range exits {
+			if endsInPanic(e.to) {
+				continue
+			}
+			r := returnAfter(e.to)
+			if r == nil {
+				if inEnclosingLoop(f, h, e.to) {
+					continue
+				}
+				bad = "left by a break at " + c.P.Pos(firstPos(e.from))
+				continue
+			}
+			if b, ok := constBool(r.Results[0]); ok && b == dflt {
+				bad = fmt.Sprintf("answered `%v` from inside the loop at %s", dflt, c.P.Pos(instrPos(r)))
+			}
+		}
+		c.Check(bad == "", firstPos(h), fn, construct, fmt.Sprintf("`%v` only after every candidate was looked at", dflt), "a loop that searches for a "+map[bool]string{false: "witness", true: "counter-example"}[dflt]+" is "+bad+": the candidates after that point are never looked at, so the answer depends on their order")
+	}
+	return n
+}
+
+func registerQuantRule(id string, props []string, doc string, floor int, pick func(c *Ctx, f *ssa.Function) bool, reviewed map[string]string) {
+	register(&Rule{ID: id, Props: props, Doc: doc, Floor: floor, Run: func(c *Ctx) {
+		n := 0
+		var fs []*ssa.Function
+		for _, f := range c.P.Funcs {
+			if c.P.InRepo(f) && pick(c, f) {
+				fs = append(fs, f)
+			}
+		}
+		sort.Slice(fs, func(i, j int) bool { return FuncName(fs[i]) < FuncName(fs[j]) || (FuncName(fs[i]) == FuncName(fs[j]) && fs[i].Pos() < fs[j].Pos()) })
+		for _, f := range fs {
+			n += checkQuantifierLoops(c, f, reviewed)
+		}
+		if n < floor {
+			c.Errorf("only %d quantifier loops found, expected >= %d", n, floor)
+		}
+	}})
+}
+
+func init() {
+	general := "a Boolean predicate that loops over candidates and can answer the opposite of its fall-through answer from inside the loop (a witness for `exists`, a counter-example for `for all`) never returns the fall-through answer from inside the loop and never breaks out to it: "
+	registerQuantRule("C18.quantifier", []string{"C18"}, general+"the element-wise comparisons of ExactEquals (structureEq, the ring/line rotations and reversals of lineStringsEq, validPermutation)", 3,
+		func(c *Ctx, f *ssa.Function) bool {
+			r := rootFunc(f)
+			return (r.Signature.Recv() != nil && namedName(r.Signature.Recv().Type()) == "exactEqualsComparator") || FuncName(r) == "geom.validPermutation"
+		}, nil)
+	registerQuantRule("C03.quantifier", []string{"C03"}, general+"IsSimple of the lineal and point types, the two-distinct-points tests and the cycle search of the ring-touch graph (ringIsNestedInRing is reviewed: the first conclusive vertex decides by design)", 6,
+		func(c *Ctx, f *ssa.Function) bool {
+			r := rootFunc(f)
+			switch {
+			case r.Name() == "IsSimple", strings.HasPrefix(r.Name(), "hasAtLeast2DistinctPoints"), r.Name() == "ringIsNestedInRing":
+				return pkgOf(r) == "geom"
+			case r.Signature.Recv() != nil && namedName(r.Signature.Recv().Type()) == "graph":
+				return true
+			}
+			return false
+		}, map[string]string{"geom.ringIsNestedInRing": "reviewed: vertices of the inner ring that lie ON the outer ring are inconclusive and skipped; the first vertex strictly inside or outside decides (both answers inside the loop are by design, and rings of a valid polygon cannot disagree)"})
+	registerQuantRule("C20.quantifier", []string{"C20", "C14", "C17"}, general+"IsEmpty of the collection types (empty iff every member is empty) and IsCW / IsCCW of Polygon, MultiPolygon and GeometryCollection (true iff every ring / member is)", 8,
+		func(c *Ctx, f *ssa.Function) bool {
+			r := rootFunc(f)
+			switch r.Name() {
+			case "IsEmpty", "IsCW", "IsCCW":
+				return pkgOf(r) == "geom" && r.Signature.Recv() != nil
+			}
+			return false
+		}, nil)
+}
+
+// ---------------------------------------------------------------------------
+// C09.segments: the segment/segment intersection kernel
+// ---------------------------------------------------------------------------
+
+func init() {
+	register(&Rule{
+		ID:    "C09.segments",
+		Props: []string{"C09", "C01", "C03", "C02"},
+		Doc:   "the segment/segment kernel that Intersects, validation and the overlay's noding are built on: line.intersectLine interpreted on every pair of non-degenerate segments with end points on the 3x3 lattice, plus every pair of segments among 4 equally spaced collinear points in 4 directions (5760 configurations) returns exactly the intersection of the two closed segments computed in rational arithmetic — empty when they share no point (collinear but disjoint included), the single common point (to within 4 ulps when it is not a lattice point), or the two end points of the common stretch when they overlap along a line",
+		Floor: 1,
+		Run:   runC09Segments,
+	})
+}
+
+type rat struct{ n, d int64 }
+
+func (a rat) norm() rat {
+	if a.d < 0 {
+		a.n, a.d = -a.n, -a.d
+	}
+	g := gcd64(abs64(a.n), a.d)
+	if g > 1 {
+		a.n /= g
+		a.d /= g
+	}
+	return a
+}
+func gcd64(a, b int64) int64 {
+	for b != 0 {
+		a, b = b, a%b
+	}
+	if a == 0 {
+		return 1
+	}
+	return a
+}
+func abs64(a int64) int64 {
+	if a < 0 {
+		return -a
+	}
+	return a
+}
+func (a rat) f() float64 { return float64(a.n) / float64(a.d) }
+
+// exactSegInter: intersection of closed segments ab and cd with integer end points.
+// kind 0 empty, 1 point, 2 stretch (two distinct points)
+func exactSegInter(ax, ay, bx, by, cx, cy, dx, dy int64) (kind int, p, q [2]rat) {
+	cross := func(ux, uy, vx, vy int64) int64 { return ux*vy - uy*vx }
+	rx, ry := bx-ax, by-ay
+	sx, sy := dx-cx, dy-cy
+	den := cross(rx, ry, sx, sy)
+	qpx, qpy := cx-ax, cy-ay
+	if den != 0 {
+		tn := cross(qpx, qpy, sx, sy)
+		un := cross(qpx, qpy, rx, ry)
+		// t = tn/den, u = un/den both in [0,1]
+		in01 := func(n, d int64) bool {
+			if d < 0 {
+				n, d = -n, -d
+			}
+			return n >= 0 && n <= d
+		}
+		if !in01(tn, den) || !in01(un, den) {
+			return 0, p, q
+		}
+		p = [2]rat{rat{ax*den + tn*rx, den}.norm(), rat{ay*den + tn*ry, den}.norm()}
+		return 1, p, p
+	}
+	if cross(qpx, qpy, rx, ry) != 0 {
+		return 0, p, q // parallel, not collinear
+	}
+	// collinear: project on r
+	rr := rx*rx + ry*ry
+	t0 := qpx*rx + qpy*ry
+	t1 := t0 + sx*rx + sy*ry
+	lo, hi := t0, t1
+	if lo > hi {
+		lo, hi = hi, lo
+	}
+	if lo < 0 {
+		lo = 0
+	}
+	if hi > rr {
+		hi = rr
+	}
+	if lo > hi {
+		return 0, p, q
+	}
+	p = [2]rat{rat{ax*rr + lo*rx, rr}.norm(), rat{ay*rr + lo*ry, rr}.norm()}
+	q = [2]rat{rat{ax*rr + hi*rx, rr}.norm(), rat{ay*rr + hi*ry, rr}.norm()}
+	if lo == hi {
+		return 1, p, p
+	}
+	return 2, p, q
+}
+
+func runC09Segments(c *Ctx) {
+	f := c.P.Func("geom.(line).intersectLine")
+	if f == nil {
+		c.Errorf("anchor geom.(line).intersectLine does not resolve")
+		return
+	}
+	inl := func(g *ssa.Function) bool {
+		if pkgOf(g) != "geom" {
+			return false
+		}
+		switch FuncName(g) {
+		case "geom.(line).intersectLine":
+			return false
+		}
+		return true // everything the kernel calls is small arithmetic on XY values
+	}
+	problem, undec := "", ""
+	models := 0
+	near := func(got float64, want rat) bool {
+		w := want.f()
+		if got == w {
+			return true
+		}
+		ulp := math.Nextafter(math.Abs(w), math.Inf(1)) - math.Abs(w)
+		return math.Abs(got-w) <= 4*ulp
+	}
+	var co [8]int64
+	var rec func(k int)
+	rec = func(k int) {
+		if problem != "" || undec != "" {
+			return
+		}
+		if k < 8 {
+			for v := int64(0); v < 3; v++ {
+				co[k] = v
+				rec(k + 1)
+			}
+			return
+		}
+		if (co[0] == co[2] && co[1] == co[3]) || (co[4] == co[6] && co[5] == co[7]) {
+			return
+		}
+		models++
+		m := &Model{Num: map[string]float64{
+			"$0.a.X": float64(co[0]), "$0.a.Y": float64(co[1]), "$0.b.X": float64(co[2]), "$0.b.Y": float64(co[3]),
+			"$1.a.X": float64(co[4]), "$1.a.Y": float64(co[5]), "$1.b.X": float64(co[6]), "$1.b.Y": float64(co[7]),
+		}, Bool: map[string]bool{}, Missing: map[string]bool{}}
+		it := &k4interp{p: c.P, m: m, mem: map[string]k4val{}, inline: inl}
+		res, err := it.call(f, []k4val{{kind: 3, s: "$0"}, {kind: 3, s: "$1"}}, nil)
+		if err != nil || len(res) != 1 || res[0].kind != 3 {
+			undec = fmt.Sprintf("%v %v %s", err, res, trunc(missingList(m)))
+			return
+		}
+		r := res[0].s
+		get := func(k string, t types.Type) (k4val, bool) {
+			v, e := it.lookup(r+k, t)
+			return v, e == nil
+		}
+		ev, ok0 := get(".empty", boolT)
+		ax, ok1 := get(".ptA.X", f64T)
+		ay, ok2 := get(".ptA.Y", f64T)
+		bx, ok3 := get(".ptB.X", f64T)
+		by, ok4 := get(".ptB.Y", f64T)
+		if !ok0 {
+			undec = "cannot read the result: " + trunc(missingList(m))
+			return
+		}
+		kind, p, q := exactSegInter(co[0], co[1], co[2], co[3], co[4], co[5], co[6], co[7])
+		cfg := fmt.Sprintf("(%d %d,%d %d) and (%d %d,%d %d)", co[0], co[1], co[2], co[3], co[4], co[5], co[6], co[7])
+		if kind == 0 {
+			if !ev.b {
+				problem = fmt.Sprintf("segments %s have no common point but the kernel reports an intersection", cfg)
+			}
+			return
+		}
+		if ev.b {
+			problem = fmt.Sprintf("segments %s meet (at %v %v) but the kernel reports no intersection", cfg, p[0].f(), p[1].f())
+			return
+		}
+		if !(ok1 && ok2 && ok3 && ok4) {
+			undec = "cannot read the result points: " + trunc(missingList(m))
+			return
+		}
+		same := func(x, y float64, w [2]rat) bool { return near(x, w[0]) && near(y, w[1]) }
+		okRes := (same(ax.f, ay.f, p) && same(bx.f, by.f, q)) || (same(ax.f, ay.f, q) && same(bx.f, by.f, p))
+		if !okRes {
+			problem = fmt.Sprintf("segments %s intersect in [(%v %v),(%v %v)] but the kernel returns [(%v %v),(%v %v)]", cfg, p[0].f(), p[1].f(), q[0].f(), q[1].f(), ax.f, ay.f, bx.f, by.f)
+		}
+	}
+	rec(0)
+	// collinear pairs need four points in a row, which the 3x3 lattice does not have: every pair of
+	// segments with end points among 4 equally spaced points of a horizontal, vertical and two diagonal lines
+	run8 := rec
+	for _, dir := range [][2]int64{{1, 0}, {0, 1}, {1, 1}, {1, -1}} {
+		ox, oy := int64(0), int64(0)
+		if dir[1] < 0 {
+			oy = 3
+		}
+		for i := int64(0); i < 4; i++ {
+			for j := int64(0); j < 4; j++ {
+				for k := int64(0); k < 4; k++ {
+					for l := int64(0); l < 4; l++ {
+						if i == j || k == l {
+							continue
+						}
+						co = [8]int64{ox + i*dir[0], oy + i*dir[1], ox + j*dir[0], oy + j*dir[1], ox + k*dir[0], oy + k*dir[1], ox + l*dir[0], oy + l*dir[1]}
+						run8(8)
+					}
+				}
+			}
+		}
+	}
+	reportK4(c, f, "intersection of two segments", undec, problem, fmt.Sprintf("equals the exact intersection (empty / point / common stretch) in all %d lattice configurations", models))
+}
+
+// ---------------------------------------------------------------------------
+// C08.varint / C07.limits / C04.scantype
+// ---------------------------------------------------------------------------
+
+func init() {
+	register(&Rule{
+		ID:    "C08.varint",
+		Props: []string{"C08", "C07"},
+		Doc:   "a malformed varint is an error, not a position: wherever geom decodes with encoding/binary.Uvarint / Varint, the byte count n it returns reaches arithmetic (advancing the read position) only where n > 0 has been established — both n == 0 (input too short) and n < 0 (overflow) lead to an error return first; otherwise a truncated TWKB stalls the parser (position never advances) or moves it backwards",
+		Floor: 2,
+		Run:   runC08Varint,
+	})
+	register(&Rule{
+		ID:    "C07.limits",
+		Props: []string{"C07"},
+		Doc:   "inadmissible TWKB parameters are rejected before anything is written: MarshalTWKB interpreted on an XYZM geometry with the real TWKBPrecisionZ/M options and the writer opaque returns an error exactly when the XY precision is outside [-8,7] or the Z or M precision outside [0,7] (the 4-bit zig-zag / 3-bit fields of the format) and never builds the writer then, and writeIDList, interpreted with an ID list longer and shorter than the number of members, returns an error and writes nothing",
+		Floor: 2,
+		Run:   runC07Limits,
+	})
+	register(&Rule{
+		ID:    "C04.scantype",
+		Props: []string{"C04"},
+		Doc:   "Scan into a concrete type rejects a different geometry type: scanAsType interpreted with the scanned geometry's type and the destination's type equal / different: different types give a non-nil error and the destination is not assigned; equal types assign and return nil; a failed Geometry.Scan is returned as is",
+		Floor: 1,
+		Run:   runC04ScanType,
+	})
+}
+
+// intBounds: the tightest constant bounds lo <= v <= hi that the guards at `in` establish for v
+func intBounds(in ssa.Instruction, v ssa.Value) (lo, hi int64, hasLo, hasHi bool) {
+	for _, g0 := range guardsAt(in) {
+		for _, g := range expandGuard(g0) {
+			bo, ok := g.Cond.(*ssa.BinOp)
+			if !ok {
+				continue
+			}
+			op := bo.Op
+			var k int64
+			switch {
+			case sameQuantity(bo.X, v):
+				kk, ok := constInt(stripConv(bo.Y))
+				if !ok {
+					continue
+				}
+				k = kk
+			case sameQuantity(bo.Y, v):
+				kk, ok := constInt(stripConv(bo.X))
+				if !ok {
+					continue
+				}
+				k = kk
+				switch op {
+				case token.LSS:
+					op = token.GTR
+				case token.GTR:
+					op = token.LSS
+				case token.LEQ:
+					op = token.GEQ
+				case token.GEQ:
+					op = token.LEQ
+				}
+			default:
+				continue
+			}
+			if !g.Truth {
+				switch op {
+				case token.LSS:
+					op = token.GEQ
+				case token.GTR:
+					op = token.LEQ
+				case token.LEQ:
+					op = token.GTR
+				case token.GEQ:
+					op = token.LSS
+				case token.EQL:
+					op = token.NEQ
+				case token.NEQ:
+					op = token.EQL
+				}
+			}
+			switch op {
+			case token.GEQ:
+				if !hasLo || k > lo {
+					lo, hasLo = k, true
+				}
+			case token.GTR:
+				if !hasLo || k+1 > lo {
+					lo, hasLo = k+1, true
+				}
+			case token.LEQ:
+				if !hasHi || k < hi {
+					hi, hasHi = k, true
+				}
+			case token.LSS:
+				if !hasHi || k-1 < hi {
+					hi, hasHi = k-1, true
+				}
+			case token.EQL:
+				lo, hi, hasLo, hasHi = k, k, true, true
+			case token.NEQ:
+				// v != 0 together with v >= 0 gives v >= 1: handled by the caller
+			}
+		}
+	}
+	return
+}
+
+func neqZeroGuarded(in ssa.Instruction, v ssa.Value) bool {
+	for _, g0 := range guardsAt(in) {
+		for _, g := range expandGuard(g0) {
+			bo, ok := g.Cond.(*ssa.BinOp)
+			if !ok {
+				continue
+			}
+			var other ssa.Value
+			if sameQuantity(bo.X, v) {
+				other = bo.Y
+			} else if sameQuantity(bo.Y, v) {
+				other = bo.X
+			} else {
+				continue
+			}
+			if k, ok := constInt(stripConv(other)); !ok || k != 0 {
+				continue
+			}
+			if (bo.Op == token.EQL && !g.Truth) || (bo.Op == token.NEQ && g.Truth) {
+				return true
+			}
+		}
+	}
+	return false
+}
+
+func runC08Varint(c *Ctx) {
+	n := 0
+	for _, f := range c.P.Funcs {
+		if pkgOf(f) != "geom" {
+			continue
+		}
+		fn := FuncName(f)
+		eachInstr(f, func(in ssa.Instruction) {
+			call, ok := in.(*ssa.Call)
+			if !ok {
+				return
+			}
+			cal := staticCallee(call)
+			if cal == nil || cal.Pkg == nil || cal.Pkg.Pkg.Path() != "encoding/binary" || (cal.Name() != "Uvarint" && cal.Name() != "Varint") {
+				return
+			}
+			n++
+			construct := "byte count of " + cal.Name()
+			var cnt *ssa.Extract
+			for _, r := range *call.Referrers() {
+				if ex, ok := r.(*ssa.Extract); ok && ex.Index == 1 {
+					cnt = ex
+				}
+			}
+			if cnt == nil {
+				c.Bad(call.Pos(), fn, construct, "the byte count is discarded: a truncated or overflowing varint is taken for a value")
+				return
+			}
+			bad := ""
+			uses := 0
+			for _, r := range *cnt.Referrers() {
+				bo, ok := r.(*ssa.BinOp)
+				if !ok {
+					if _, isRet := r.(*ssa.Return); isRet {
+						bad = "the byte count is returned unchecked at " + c.P.Pos(instrPos(r))
+					}
+					continue
+				}
+				switch bo.Op {
+				case token.ADD, token.SUB, token.MUL:
+				default:
+					continue
+				}
+				uses++
+				lo, _, hasLo, _ := intBounds(bo, cnt)
+				pos := hasLo && lo >= 1
+				if !pos && hasLo && lo >= 0 && neqZeroGuarded(bo, cnt) {
+					pos = true
+				}
+				if !pos {
+					bad = "the position is advanced by the byte count at " + c.P.Pos(bo.Pos()) + " where n > 0 is not established (n == 0: input too short, n < 0: overflow)"
+				}
+			}
+			if uses == 0 && bad == "" {
+				bad = "the byte count is never used to advance the position"
+			}
+			c.Check(bad == "", call.Pos(), fn, construct, "used only where n > 0 is established", bad+": a truncated or overlong varint must be an error")
+		})
+	}
+	if n < 2 {
+		c.Errorf("only %d varint decodes found, expected >= 2", n)
+	}
+}
+
+func runC07Limits(c *Ctx) {
+	f := c.P.Func("geom.MarshalTWKB")
+	if f == nil {
+		c.Errorf("anchor geom.MarshalTWKB does not resolve")
+		return
+	}
+	// by interpretation: MarshalTWKB(g, precXY, TWKBPrecisionZ(z), TWKBPrecisionM(m)) on an XYZM geometry with the
+	// writer opaque: an error exactly when a precision is outside its range, and then the writer is never built
+	{
+		pz := c.P.Func("geom.TWKBPrecisionZ")
+		pm := c.P.Func("geom.TWKBPrecisionM")
+		problem, undec := "", ""
+		models := 0
+		if pz == nil || pm == nil {
+			undec = "the option constructors TWKBPrecisionZ / TWKBPrecisionM do not resolve"
+		}
+		xyVals := []float64{-9, -8, 0, 7, 8}
+		zmVals := []float64{-1, 0, 7, 8}
+		for _, xy := range xyVals {
+			for _, z := range zmVals {
+				for _, mm := range zmVals {
+					if problem != "" || undec != "" {
+						break
+					}
+					// vary one parameter at a time around a valid base, plus the all-corners
+					odd := 0
+					if xy != 0 {
+						odd++
+					}
+					if z != 0 {
+						odd++
+					}
+					if mm != 0 {
+						odd++
+					}
+					if odd > 1 && !(xy != 0 && z != 0 && mm != 0) {
+						continue
+					}
+					models++
+					m := &Model{Num: map[string]float64{}, Bool: map[string]bool{}, Missing: map[string]bool{}}
+					it := &k4interp{p: c.P, m: m, mem: map[string]k4val{}, inline: func(g *ssa.Function) bool {
+						switch FuncName(g) {
+						case "geom.(CoordinatesType).Is3D", "geom.(CoordinatesType).IsMeasured":
+							return true
+						}
+						return g.Parent() == pz || g.Parent() == pm
+					}}
+					oz, e1 := it.call(pz, []k4val{{kind: 2, f: z}}, nil)
+					om, e2 := it.call(pm, []k4val{{kind: 2, f: mm}}, nil)
+					if e1 != nil || e2 != nil || len(oz) != 1 || len(om) != 1 || oz[0].kind != 7 || om[0].kind != 7 {
+						undec = fmt.Sprintf("cannot interpret the option constructors: %v %v", e1, e2)
+						break
+					}
+					it.mem["OPTS[0]"] = oz[0]
+					it.mem["OPTS[1]"] = om[0]
+					built := 0
+					it.onOpaque = func(name string, args []k4val) {
+						if strings.HasSuffix(name, "newtwkbWriter") {
+							built++
+						}
+					}
+					it.answer = func(key string, isBool bool) (k4val, bool) {
+						switch {
+						case !isBool && strings.Contains(key, ").CoordinatesType("):
+							return k4val{kind: 2, f: 3}, true // XYZM
+						case isBool && strings.Contains(key, "writeGeometry(") && strings.Contains(key, "==nil"):
+							return k4val{kind: 1, b: true}, true
+						case isBool && strings.Contains(key, "writeGeometry(") && strings.Contains(key, "!=nil"):
+							return k4val{kind: 1, b: false}, true
+						}
+						return k4val{}, false
+					}
+					res, err := it.call(f, []k4val{{kind: 3, s: "$0"}, {kind: 2, f: xy}, {kind: 8, s: "OPTS", ln: 2, cp: 2}}, nil)
+					if err != nil || len(res) != 2 {
+						undec = fmt.Sprintf("%v %v %s", err, res, trunc(missingList(m)))
+						break
+					}
+					isNil := res[1].String() == "nil"
+					bad := xy < -8 || xy > 7 || z < 0 || z > 7 || mm < 0 || mm > 7
+					if bad && (isNil || built > 0) {
+						problem = fmt.Sprintf("MarshalTWKB with precisions XY=%v Z=%v M=%v (admissible: XY in [-8,7], Z and M in [0,7]) returns error %s and builds the writer %d time(s); expected an error before anything is written", xy, z, mm, res[1].String(), built)
+					}
+					if !bad && (!isNil || built != 1) {
+						problem = fmt.Sprintf("MarshalTWKB with admissible precisions XY=%v Z=%v M=%v returns error %s (writer built %d time(s))", xy, z, mm, res[1].String(), built)
+					}
+				}
+			}
+		}
+		reportK4(c, f, "precision ranges", undec, problem, fmt.Sprintf("an error exactly when XY is outside [-8,7] or Z/M outside [0,7], before the writer is built (%d models through the real option constructors)", models))
+	}
+	fn := FuncName(f)
+	_ = fn
+	// ID count
+	g := c.P.Func("geom.(*twkbWriter).writeIDList")
+	if g == nil {
+		c.Errorf("anchor geom.(*twkbWriter).writeIDList does not resolve")
+		return
+	}
+	problem, undec := "", ""
+	for _, t := range []struct{ num, have int }{{2, 3}, {3, 2}, {0, 1}, {2, 2}, {0, 0}} {
+		m := &Model{Num: map[string]float64{}, Bool: map[string]bool{"$0.hasIDs": true}, Missing: map[string]bool{}}
+		it := &k4interp{p: c.P, m: m, mem: map[string]k4val{}}
+		it.mem["$0.idList"] = k4val{kind: 8, s: "IDS", ln: t.have, cp: t.have}
+		for i := 0; i < t.have; i++ {
+			it.mem[fmt.Sprintf("IDS[%d]", i)] = k4val{kind: 2, f: float64(10 + i)}
+		}
+		wrote := 0
+		it.onOpaque = func(name string, args []k4val) {
+			if strings.Contains(name, "writeSignedVarint") || strings.Contains(name, "Varint") {
+				wrote++
+			}
+		}
+		res, err := it.call(g, []k4val{{kind: 3, s: "$0"}, {kind: 2, f: float64(t.num)}}, nil)
+		if err != nil || len(res) != 1 {
+			undec = fmt.Sprintf("%v %v %s", err, res, missingList(m))
+			break
+		}
+		isNil := res[0].String() == "nil"
+		if t.num != t.have {
+			if isNil || wrote > 0 {
+				problem = fmt.Sprintf("with %d IDs supplied for %d members writeIDList returns %s and writes %d IDs; expected an error and nothing written", t.have, t.num, res[0].String(), wrote)
+				break
+			}
+		} else if !isNil || wrote != t.num {
+			problem = fmt.Sprintf("with %d IDs for %d members writeIDList returns %s and writes %d IDs; expected nil and %d written", t.have, t.num, res[0].String(), wrote, t.num)
+			break
+		}
+	}
+	reportK4(c, g, "ID count must match", undec, problem, "an ID list of the wrong length is an error and nothing is written; a matching one is written in full")
+}
+
+func runC04ScanType(c *Ctx) {
+	f := c.P.Func("geom.scanAsType")
+	if f == nil {
+		c.Errorf("anchor geom.scanAsType does not resolve")
+		return
+	}
+	problem, undec := "", ""
+	for _, t := range []struct {
+		scanErr bool
+		tg, td  float64
+	}{{false, 1, 1}, {false, 1, 2}, {false, 0, 6}, {false, 3, 3}, {true, 1, 1}} {
+		m := &Model{Num: map[string]float64{}, Bool: map[string]bool{}, Missing: map[string]bool{}}
+		it := &k4interp{p: c.P, m: m, mem: map[string]k4val{}}
+		assigned := 0
+		it.onOpaque = func(name string, args []k4val) {
+			if strings.HasSuffix(name, "assignToConcrete") {
+				assigned++
+			}
+		}
+		typeCalls := 0
+		it.answer = func(key string, isBool bool) (k4val, bool) {
+			switch {
+			case isBool && strings.Contains(key, ").Scan(") && strings.Contains(key, "==nil"):
+				return k4val{kind: 1, b: !t.scanErr}, true
+			case !isBool && strings.Contains(key, "(Geometry).Type("):
+				return k4val{kind: 2, f: t.tg}, true
+			case !isBool && strings.Contains(key, "Type("):
+				typeCalls++
+				return k4val{kind: 2, f: t.td}, true
+			}
+			return k4val{}, false
+		}
+		res, err := it.call(f, []k4val{{kind: 3, s: "$0"}, {kind: 3, s: "$1"}}, nil)
+		if err != nil || len(res) != 1 {
+			undec = fmt.Sprintf("%v %v %s", err, res, trunc(missingList(m)))
+			break
+		}
+		isNil := res[0].String() == "nil"
+		switch {
+		case t.scanErr:
+			if isNil || assigned > 0 {
+				problem = "a failed Geometry.Scan is not returned (or the destination is assigned anyway)"
+			}
+		case t.tg != t.td:
+			if isNil || assigned > 0 {
+				problem = fmt.Sprintf("scanning a geometry of type %v into a destination of type %v returns %s and assigns %d time(s); expected an error and no assignment", t.tg, t.td, res[0].String(), assigned)
+			}
+		default:
+			if !isNil || assigned != 1 {
+				problem = fmt.Sprintf("scanning a geometry of the destination's own type returns %s and assigns %d time(s); expected nil and one assignment", res[0].String(), assigned)
+			}
+		}
+		if problem != "" {
+			break
+		}
+	}
+	reportK4(c, f, "type of the scanned geometry", undec, problem, "a different type is rejected without touching the destination; the same type is assigned")
+}
+
+// ---------------------------------------------------------------------------
+// C16.seqtype
+// ---------------------------------------------------------------------------
+
+func init() {
+	register(&Rule{
+		ID:    "C16.seqtype",
+		Props: []string{"C16"},
+		Doc:   "coordinate lists handed out carry the geometry's coordinates type: in every method of the seven geometry types that returns a Sequence and builds it with NewSequence (DumpCoordinates, Coordinates of MultiPoint, …), the coordinates-type argument is the receiver's own type (its ctype field, its CoordinatesType(), or that of its own sequence/coordinates) — never a constant or another value",
+		Floor: 5,
+		Run:   runC16SeqType,
+	})
+}
+
+func rootedAtReceiver(v ssa.Value, recv ssa.Value, d int) bool {
+	if d > 8 || v == nil {
+		return false
+	}
+	if v == recv {
+		return true
+	}
+	switch x := v.(type) {
+	case *ssa.UnOp:
+		if x.Op == token.MUL {
+			return rootedAtReceiver(x.X, recv, d+1)
+		}
+	case *ssa.FieldAddr:
+		return rootedAtReceiver(x.X, recv, d+1)
+	case *ssa.Field:
+		return rootedAtReceiver(x.X, recv, d+1)
+	case *ssa.Alloc:
+		if st := uniqueStore(x); st != nil {
+			return rootedAtReceiver(st, recv, d+1)
+		}
+	case *ssa.Call:
+		// an accessor of the receiver (its sequence, its coordinates)
+		if cal := staticCallee(x); cal != nil && len(x.Call.Args) >= 1 && cal.Signature.Recv() != nil {
+			return rootedAtReceiver(x.Call.Args[0], recv, d+1)
+		}
+	case *ssa.Extract:
+		return rootedAtReceiver(x.Tuple, recv, d+1)
+	}
+	return false
+}
+
+func runC16SeqType(c *Ctx) {
+	n := 0
+	for _, f := range c.P.Funcs {
+		if pkgOf(f) != "geom" || f.Signature.Recv() == nil || len(f.Blocks) == 0 || f.Parent() != nil {
+			continue
+		}
+		rn := namedName(f.Signature.Recv().Type())
+		isGeomType := false
+		for _, t := range sevenTypes {
+			if t == rn {
+				isGeomType = true
+			}
+		}
+		if !isGeomType {
+			continue
+		}
+		res := f.Signature.Results()
+		if res.Len() != 1 || namedName(res.At(0).Type()) != "Sequence" {
+			continue
+		}
+		fn := FuncName(f)
+		recv := ssa.Value(f.Params[0])
+		k := 0
+		eachCall(f, func(ci ssa.CallInstruction) {
+			call, ok := ci.(*ssa.Call)
+			if !ok || calleeName(call) != "geom.NewSequence" || len(call.Call.Args) != 2 {
+				return
+			}
+			n++
+			k++
+			t := call.Call.Args[1]
+			good := false
+			switch x := t.(type) {
+			case *ssa.Call:
+				if cal := staticCallee(x); cal != nil && cal.Name() == "CoordinatesType" && len(x.Call.Args) == 1 && rootedAtReceiver(x.Call.Args[0], recv, 0) {
+					good = true
+				}
+			case *ssa.UnOp:
+				if fa, ok := x.X.(*ssa.FieldAddr); ok && x.Op == token.MUL {
+					_, fld := fieldOfAddr(fa)
+					if (fld == "ctype" || fld == "Type") && rootedAtReceiver(fa.X, recv, 0) {
+						good = true
+					}
+				}
+			case *ssa.Field:
+				_, fld := fieldOfField(x)
+				if (fld == "ctype" || fld == "Type") && rootedAtReceiver(x.X, recv, 0) {
+					good = true
+				}
+			}
+			c.Check(good, call.Pos(), fn, fmt.Sprintf("NewSequence #%d", k), "typed by the receiver's coordinates type", "the Sequence returned is typed by a value that is not the receiver's own coordinates type (a constant or something else): Z/M of the listed coordinates are dropped or misread")
+		})
+	}
+	if n < 5 {
+		c.Errorf("only %d Sequence constructions found in Sequence-returning methods, expected >= 5", n)
+	}
+}
+
+// isValuePlusPositive: e is v + k (or k + v) with a constant k >= 1
+func isValuePlusPositive(e, v ssa.Value) bool {
+	bo, ok := stripConv(e).(*ssa.BinOp)
+	if !ok || bo.Op != token.ADD {
+		return false
+	}
+	if k, ok := constInt(stripConv(bo.Y)); ok && k >= 1 && sameQuantity(bo.X, v) {
+		return true
+	}
+	if k, ok := constInt(stripConv(bo.X)); ok && k >= 1 && sameQuantity(bo.Y, v) {
+		return true
+	}
+	return false
 }
